@@ -333,8 +333,8 @@ impl<'a, R: ReadValue> LimitReader<'a, R> {
         Some(reader)
     }
 
-    fn check_has_bytes(&self, len: usize) -> Result<(), ProtobufError> {
-        match self.position().checked_add(len as u64) {
+    pub fn check_has_bytes(&self, len: u64) -> Result<(), ProtobufError> {
+        match self.position().checked_add(len) {
             Some(end) if end <= self.end => Ok(()),
             _ => Err(ProtobufError::new(ErrorKind::Eof)),
         }
@@ -366,7 +366,7 @@ impl<'a, R: ReadValue> ReadValue for LimitReader<'a, R> {
         &mut self,
         len: usize,
     ) -> Result<<Self::Types as FieldTypes>::Bytes, ProtobufError> {
-        self.check_has_bytes(len)?;
+        self.check_has_bytes(len as u64)?;
         let bytes = self.inner.read_bytes(len)?;
         Ok(bytes)
     }
@@ -375,13 +375,13 @@ impl<'a, R: ReadValue> ReadValue for LimitReader<'a, R> {
         &mut self,
         len: usize,
     ) -> Result<<Self::Types as FieldTypes>::String, ProtobufError> {
-        self.check_has_bytes(len)?;
+        self.check_has_bytes(len as u64)?;
         let string = self.inner.read_string(len)?;
         Ok(string)
     }
 
     fn skip(&mut self, len: usize) -> Result<(), ProtobufError> {
-        self.check_has_bytes(len)?;
+        self.check_has_bytes(len as u64)?;
         self.inner.skip(len)?;
         Ok(())
     }
